@@ -649,8 +649,10 @@ def negative_index(prog: Program, modules: Set[str]) -> List[Instance]:
                                 else f"`{short(n)}` turns an integer index into a slice without handling negative values: index -1 becomes slice(-1, 0), a negative-length region", fi.where(n)))
     # slice *bounds* (not integer indexes): a negative bound counts from the end but is clamped at the start,
     # x[-15:] on ten elements is x[0:]; `n + x` alone stays negative and is wrapped a second time by the user
+    from ..astutil import with_folded
+
     for fi in prog.all_functions(modules):
-        for n in walk_own(fi.node):
+        for n in with_folded(walk_own(fi.node)):
             if not isinstance(n, ast.IfExp):
                 continue
             t = n.test
@@ -667,6 +669,23 @@ def negative_index(prog: Program, modules: Set[str]) -> List[Instance]:
             # only where the value becomes a slice bound
             st = enclosing_stmt(n)
             feeds_slice = any(isinstance(c, ast.Call) and call_name(c) == "slice" for y in walk_own(fi.node) if isinstance(y, ast.Return) and y.value is not None for c in ast.walk(y.value))
+            if not feeds_slice and fi.parent is not None and isinstance(parent(n), ast.Return):
+                # a local helper that resolves one bound (`return n + x if x < 0 else x`): the clamp belongs at each call site of
+                # the enclosing function, where the value becomes a slice bound
+                pf = fi.parent
+                if any(isinstance(c, ast.Call) and call_name(c) == "slice" for y in walk_own(pf.node) if isinstance(y, ast.Return) and y.value is not None for c in ast.walk(y.value)):
+                    inner_clamped = isinstance(neg_branch, ast.Call) and call_name(neg_branch) == "max" and any(const_num(a) == 0 for a in neg_branch.args)
+                    for c in walk_own(pf.node):
+                        if isinstance(c, ast.Call) and isinstance(c.func, ast.Name) and c.func.id == fi.name:
+                            q, site_clamped = parent(c), inner_clamped
+                            while q is not None and not isinstance(q, ast.stmt):
+                                if isinstance(q, ast.Call) and call_name(q) == "max" and any(const_num(a) == 0 for a in q.args):
+                                    site_clamped = True
+                                q = parent(q)
+                            out.append(Instance("R-NEGIDX", f"{pf.qual}#bound-wrap:{short(c, 30)}", OK if site_clamped else BAD,
+                                                f"`{short(c, 40)}`: a negative bound wrapped by `{fi.name}` is clamped at 0" if site_clamped else
+                                                f"`{short(enclosing_stmt(c), 60)}` takes the bound from `{fi.name}` (which wraps a negative offset as n + x) without max(0, .): a negative offset larger than the axis stays negative and is wrapped a second time by whoever uses the slice (s_[:-3] on two elements selects one)", pf.where(c)))
+                continue
             if not feeds_slice:
                 continue
             clamped = isinstance(neg_branch, ast.Call) and call_name(neg_branch) == "max" and any(const_num(a) == 0 for a in neg_branch.args)
